@@ -640,8 +640,10 @@ func splitRnd(log [][]byte) (cl, sv [][]byte) {
 }
 
 func liveCase(c *vhlib.Ctx, i int) {
-	sp := genSpec(c, i)
-	seed := c.R.U64()
+	liveCaseWith(c, genSpec(c, i), c.R.U64(), "")
+}
+
+func liveCaseWith(c *vhlib.Ctx, sp *spec, seed uint64, label string) {
 	op := "live " + specStr(sp) + fmt.Sprintf(" seed=%d", seed)
 	ref := runLive(sp, hsnet.Sched{}, hsnet.Sched{}, seed)
 	c.NewCase()
@@ -653,7 +655,11 @@ func liveCase(c *vhlib.Ctx, i int) {
 			cls = "ok-rc4"
 		}
 	}
-	c.Count("live/"+sp.kind+"/"+cls, op, true)
+	c.Count("live/"+sp.kind+label+"/"+cls, op, true)
+	if label != "" && !(ref.c.ok && ref.s.ok) {
+		// DefaultOptions on both ends, a torrent the server has: the pair must connect
+		c.Violate("interop:live:honest-pair-rejected:"+strings.TrimPrefix(label, "-"), fmt.Sprintf("client %s (%s) server %s (%s) %s", ref.c.sum(), ref.c.class, ref.s.sum(), ref.s.class, specStr(sp)), []string{op})
+	}
 	checkAgreement(c, sp, ref, "whole", []string{op})
 	if ref.hung {
 		return
@@ -711,19 +717,129 @@ func liveCase(c *vhlib.Ctx, i int) {
 			return "", ""
 		}
 	}
-	offlineFamily(c, "real-"+sp.kind, pcl, epC, true, against(ref.c, "client"))
-	offlineFamily(c, "real-"+sp.kind, psv, epS, true, against(ref.s, "server"))
+	offlineFamily(c, "real-"+sp.kind+label, pcl, epC, true, against(ref.c, "client"))
+	offlineFamily(c, "real-"+sp.kind+label, psv, epS, true, against(ref.s, "server"))
 	// a peer that does not wait: everything in one epoch (the client never tests for surplus;
 	// the plain server neither).  For the MSE server only epochs up to IA may be merged.
 	if r.Chance(50) {
-		offlineFamily(c, "real-merged-"+sp.kind, pcl, mergeAll(epC), true, against(ref.c, "client"))
+		offlineFamily(c, "real-merged-"+sp.kind+label, pcl, mergeAll(epC), true, against(ref.c, "client"))
 		if sp.kind == "plain" {
-			offlineFamily(c, "real-merged-"+sp.kind, psv, mergeAll(epS), true, against(ref.s, "server"))
+			offlineFamily(c, "real-merged-"+sp.kind+label, psv, mergeAll(epS), true, against(ref.s, "server"))
 		} else if len(epS) >= 2 {
 			m := append([][]byte{append(append([]byte(nil), epS[0]...), epS[1]...)}, epS[2:]...)
-			offlineFamily(c, "real-merged-"+sp.kind, psv, m, true, against(ref.s, "server"))
+			offlineFamily(c, "real-merged-"+sp.kind+label, psv, m, true, against(ref.s, "server"))
 		}
 	}
+}
+
+// ---------------------------------------------------------------- forced leading zero bytes
+//
+// MSE sends and hashes big integers in a FIXED width of 96 bytes (Ya, Yb on the wire; S into
+// req1/req3/keyA/keyB).  With random keys a leading zero byte occurs once in 256 runs, so it is
+// forced here: private keys are searched (a few hundred modular exponentiations) such that
+// the shared secret or a public key starts with one zero byte, and constants found offline
+// give two.
+
+func lz(b []byte) int {
+	n := 0
+	for n < len(b) && b[n] == 0 {
+		n++
+	}
+	return n
+}
+
+func findX(r *vhlib.Rand, pred func(x []byte) bool) []byte {
+	for i := 0; i < 4000; i++ {
+		x := r.Bytes(20)
+		if pred(x) {
+			return x
+		}
+	}
+	return nil
+}
+
+// S = g^(lzXa*lzXb) has two leading zero bytes; g^lzPub2 has two leading zero bytes
+var (
+	lzXa    = vhlib.UnHex("bf92fc5f0cec3bdb4eeaa2a223245a88daefe920")
+	lzXb    = vhlib.UnHex("4fd2e9de17db483cca2a74823777cb5245713338")
+	lzPub2  = vhlib.UnHex("aeba03b0dada0a0d73ae8306db4605fa3a2e091e")
+	nLzSv   int
+	nLzMc   int
+	lzNames = []string{"", "-lzS1", "-lzPeerPub1", "-lzOwnPub1", "-lzS2", "-lzOwnPub2"}
+)
+
+// forceZeros picks the secrets of one scripted case: `own` is the secret of the real code
+// under test (served to it through crypto/rand), `peer` the scripted peer's.
+func forceZeros(r *vhlib.Rand, mode int, own, peer []byte) (o, p []byte, ok bool) {
+	switch mode {
+	case 1: // S with a leading zero byte
+		ownPub := hsnet.MsePub(own)
+		if x := findX(r, func(x []byte) bool { return lz(hsnet.MseShared(x, ownPub)) >= 1 }); x != nil {
+			return own, x, true
+		}
+	case 2: // the peer's public key with a leading zero byte
+		if x := findX(r, func(x []byte) bool { return lz(hsnet.MsePub(x)) >= 1 }); x != nil {
+			return own, x, true
+		}
+	case 3: // the public key of the code under test with a leading zero byte
+		if x := findX(r, func(x []byte) bool { return lz(hsnet.MsePub(x)) >= 1 }); x != nil {
+			return x, peer, true
+		}
+	case 4:
+		return lzXa, lzXb, lz(hsnet.MseShared(lzXa, hsnet.MsePub(lzXb))) >= 2
+	case 5:
+		return lzPub2, peer, lz(hsnet.MsePub(lzPub2)) >= 2
+	}
+	return own, peer, false
+}
+
+// lzSeed searches a crypto/rand seed for a live real-vs-real run in which the property holds
+// (what: 0 = S, 1 = the client's Ya, 2 = the server's Yb starts with a zero byte).
+func lzSeed(r *vhlib.Rand, what int) (uint64, bool) {
+	for i := 0; i < 3000; i++ {
+		seed := r.U64()
+		dr := hsnet.NewDetRand(seed)
+		xa, lb := make([]byte, 20), make([]byte, 2)
+		dr.Read(xa)
+		dr.Read(lb)
+		if n := int(lb[0]&1)<<8 | int(lb[1]); n > 0 {
+			dr.Read(make([]byte, n))
+		}
+		xb := make([]byte, 20)
+		dr.Read(xb)
+		ya, yb := hsnet.MsePub(xa), hsnet.MsePub(xb)
+		switch what {
+		case 0:
+			if lz(hsnet.MseShared(xa, yb)) >= 1 {
+				return seed, true
+			}
+		case 1:
+			if lz(ya) >= 1 {
+				return seed, true
+			}
+		default:
+			if lz(yb) >= 1 {
+				return seed, true
+			}
+		}
+	}
+	return 0, false
+}
+
+func liveZeroCase(c *vhlib.Ctx, what int) {
+	seed, ok := lzSeed(c.R, what)
+	if !ok {
+		c.Note("no crypto/rand seed with a leading zero byte found")
+		return
+	}
+	r := c.R
+	h := hash.HashPair{First: r.Bytes(20), Second: r.Bytes(20)}
+	o := bitsOf(crypto.DefaultOptions(r.Bool(), false))
+	sp := &spec{kind: "mse", oc: o, os: bitsOf(crypto.DefaultOptions(r.Bool(), false)), hashes: []hash.HashPair{h},
+		ih: h.First, idc: r.Bytes(20), earlyC: r.Bytes(100), earlyS: r.Bytes(67)}
+	liveCaseWith(c, sp, seed, []string{"-lzS", "-lzYa", "-lzYb"}[what])
+	// an honest pair with a leading zero must connect
+	c.Count("live-lz/"+[]string{"S", "Ya", "Yb"}[what], "", false)
 }
 
 // ---------------------------------------------------------------- scripted peers
@@ -781,6 +897,25 @@ func scriptedServerCase(c *vhlib.Ctx) {
 	yb := hsnet.MsePub(p.x())
 	S := hsnet.MseShared(xa, yb)
 	mut := r.PickInt(0, 0, 0, 0, 0, 0, 1, 2, 3, 4, 5, 6, 7, 8, 9, 10, 11, 12, 13, 14)
+	lzTag := ""
+	if mut == 0 {
+		// fixed-width big integers: the first honest cases of a run force leading zero bytes in
+		// S / Ya / Yb (one and two), later ones now and then
+		nLzSv++
+		mode := 0
+		if nLzSv <= 5 {
+			mode = nLzSv
+			p.o = bitsOf(crypto.DefaultOptions(r.Bool(), false)) // a policy that connects
+		} else if r.Chance(10) {
+			mode = 1 + r.Intn(5)
+		}
+		if own, peer, ok := forceZeros(r, mode, p.x(), xa); ok {
+			p.rnd[0], xa = own, peer
+			ya, yb = hsnet.MsePub(xa), hsnet.MsePub(p.x())
+			S = hsnet.MseShared(xa, yb)
+			lzTag = lzNames[mode]
+		}
+	}
 	tag := "script"
 	oracle := true
 	padA := pickPeerPad(r)
@@ -930,7 +1065,7 @@ func scriptedServerCase(c *vhlib.Ctx) {
 		}
 		return "", ""
 	}
-	offlineFamily(c, tag, p, epochs, oracle, exp)
+	offlineFamily(c, tag+lzTag, p, epochs, oracle, exp)
 }
 
 // runOfflineQuiet runs the function once on whole epochs and returns its writes.
@@ -979,6 +1114,24 @@ func scriptedClientCase(c *vhlib.Ctx) {
 	yb := hsnet.MsePub(xb)
 	S := hsnet.MseShared(xb, hsnet.MsePub(p.x()))
 	mut := r.PickInt(0, 0, 0, 0, 0, 0, 1, 2, 3, 4, 5, 6, 7, 8, 9)
+	lzTag := ""
+	if mut == 0 {
+		nLzMc++
+		mode := 0
+		if nLzMc <= 5 {
+			mode = nLzMc
+			o = bitsOf(crypto.DefaultOptions(r.Bool(), false)) // a policy that connects
+			p.o = o
+		} else if r.Chance(10) {
+			mode = 1 + r.Intn(5)
+		}
+		if own, peer, ok := forceZeros(r, mode, p.x(), xb); ok {
+			p.rnd[0], xb = own, peer
+			yb = hsnet.MsePub(xb)
+			S = hsnet.MseShared(xb, hsnet.MsePub(p.x()))
+			lzTag = lzNames[mode]
+		}
+	}
 	tag := "script"
 	oracle := true
 	padB := pickPeerPad(r)
@@ -1067,7 +1220,7 @@ func scriptedClientCase(c *vhlib.Ctx) {
 		}
 		return "", ""
 	}
-	offlineFamily(c, tag, p, epochs, oracle, exp)
+	offlineFamily(c, tag+lzTag, p, epochs, oracle, exp)
 }
 
 func provideOf(o *crypto.Options) uint32 {
@@ -1300,6 +1453,13 @@ func main() {
 			replayLine(c, l)
 		}
 		return
+	}
+	if c.N >= 20 {
+		// real client against real server with crypto/rand seeds under which S, Ya, Yb start
+		// with a zero byte
+		for what := 0; what < 3; what++ {
+			liveZeroCase(c, what)
+		}
 	}
 	for i := 0; i < c.N; i++ {
 		if len(c.Rep.Violations) >= 80 {
